@@ -56,8 +56,10 @@ pub enum Hdrs {
     OwnedOverride,
     /// the caller supplies User-Agent and Accept with empty values: they go out as supplied
     EmptyDefaults,
+    /// compression switched off and an Accept-Encoding of the caller's own: it goes out as supplied
+    OwnAcceptEncoding,
 }
-const HDRS: [Hdrs; 7] = [Hdrs::None, Hdrs::One, Hdrs::DupAppend, Hdrs::ObsText, Hdrs::SetAfterAppend, Hdrs::OwnedOverride, Hdrs::EmptyDefaults];
+const HDRS: [Hdrs; 8] = [Hdrs::None, Hdrs::One, Hdrs::DupAppend, Hdrs::ObsText, Hdrs::SetAfterAppend, Hdrs::OwnedOverride, Hdrs::EmptyDefaults, Hdrs::OwnAcceptEncoding];
 
 #[derive(Clone, Copy, Debug, PartialEq, Eq, Serialize, Deserialize)]
 pub enum Auth {
@@ -162,6 +164,7 @@ fn send_a(c: &CaseA) -> Result<(Vec<u8>, Option<Vec<u8>>), String> {
         Hdrs::SetAfterAppend => rb = rb.header_append("X-Dup", "1").header_append("X-Dup", "2").header("X-Dup", "last"),
         Hdrs::OwnedOverride => rb = rb.header("Connection", "keep-alive").header("Host", "evil.test"),
         Hdrs::EmptyDefaults => rb = rb.header("User-Agent", "").header("Accept", ""),
+        Hdrs::OwnAcceptEncoding => rb = rb.header("Accept-Encoding", "br;q=1, *;q=0").allow_compression(false),
     }
     match c.auth {
         Auth::None => {}
@@ -309,6 +312,7 @@ fn check_a(c: &CaseA) -> Vec<(String, String)> {
         Hdrs::ObsText => vec![("x-obs", vec![b"caf\xe9 \x80\xff"])],
         Hdrs::SetAfterAppend => vec![("x-dup", vec![b"last"])],
         Hdrs::EmptyDefaults => vec![("user-agent", vec![b""]), ("accept", vec![b""])],
+        Hdrs::OwnAcceptEncoding => vec![("accept-encoding", vec![b"br;q=1, *;q=0"])],
     };
     for (name, vals) in exp_hdr {
         let got = req.header_all(name);
@@ -663,9 +667,104 @@ fn resend_cells(ctx: &Ctx) -> u64 {
     n
 }
 
+// Part C2: the first transmission of a prepared request breaks off (the peer goes away while the
+// body is written); the request is sent again, twice: both later transmissions are complete and equal.
+fn after_failure<B: attohttpc::body::Body>(rb: attohttpc::RequestBuilder<B>, fail_at: usize) -> Result<(bool, Vec<u8>, Vec<u8>), String> {
+    let mut p = rb.try_prepare().map_err(|e| format!("prepare: {e}"))?;
+    let failed = {
+        let mut script = Script::plain(OK.to_vec());
+        script.write_fail_at = Some(fail_at);
+        let _world = World::single(script, false);
+        p.send().is_err()
+    };
+    let mut out = Vec::new();
+    for i in 0..2 {
+        let world = World::single(Script::plain(OK.to_vec()), false);
+        p.send().map_err(|e| format!("send #{} after the broken one: {e}", i + 1))?;
+        if world.n_conns() != 1 {
+            return Err(format!("send #{}: {} connections", i + 1, world.n_conns()));
+        }
+        out.push(world.written(0));
+    }
+    let second = out.pop().unwrap();
+    Ok((failed, out.pop().unwrap(), second))
+}
+
+fn resend_after_failure_cells(ctx: &Ctx) -> u64 {
+    let mut n = 0;
+    let big: Vec<u8> = (0..70000u32).map(|i| b"abcdefghijklmnopqrstuvwxyz012345"[(i as usize * 7 + i as usize / 31) % 32]).collect();
+    for kind in ["text", "bytes", "file", "json-streaming", "multipart"] {
+        for fail_at in [60usize, 400, 9000, 40000, 70100] {
+            n += 1;
+            let big = big.clone();
+            let res = guarded(|| -> Result<(bool, Vec<u8>, Vec<u8>), String> {
+                let rb = attohttpc::post("http://h.test/p?x=1").header("X-One", "v 1");
+                match kind {
+                    "text" => after_failure(rb.text(String::from_utf8(big.clone()).unwrap()), fail_at),
+                    "bytes" => after_failure(rb.bytes(big.clone()), fail_at),
+                    "file" => after_failure(rb.file(scratch_file("c07f", 70000)), fail_at),
+                    "json-streaming" => after_failure(rb.json_streaming(vec![String::from_utf8(big.clone()).unwrap(); 2]), fail_at),
+                    _ => {
+                        let form = attohttpc::MultipartBuilder::new()
+                            .with_text("t", "v")
+                            .with_file(attohttpc::MultipartFile::new("f", &big).with_filename("n.bin"))
+                            .with_file(attohttpc::MultipartFile::new("g", b"png-data").with_type("image/png").map_err(|e| e.to_string())?)
+                            .with_text("u", "w")
+                            .build()
+                            .map_err(|e| e.to_string())?;
+                        after_failure(rb.body(form), fail_at)
+                    }
+                }
+            });
+            let class = if kind == "multipart" { "multipart" } else { "other" };
+            let replay = json!({"engine": "c07", "part": "C"});
+            let desc = format!("POST with a 70 000-byte {kind} body, prepared once; first transmission: the peer goes away after {fail_at} bytes; then sent twice more");
+            match res {
+                Err(p) => ctx.violation(format!("C07:resend:panic:{class}"), format!("{desc}: {p}"), replay, 1000 + n),
+                Ok(Err(e)) => ctx.violation(format!("C07:resend:failed:{class}"), format!("{desc}: {e}"), replay, 1000 + n),
+                Ok(Ok((failed, a, b))) => {
+                    ctx.outcome(format!("C2:first-transmission-{}", if failed { "failed" } else { "went-through" }));
+                    match (parse_single_request(&a), parse_single_request(&b)) {
+                        (Ok(x), Ok(y)) => {
+                            let mut bad = None;
+                            if x.method != y.method || x.target != y.target || x.body != y.body || x.headers != y.headers {
+                                bad = Some(format!("the two later transmissions differ: bodies of {} and {} bytes", x.body.len(), y.body.len()));
+                            } else if kind == "multipart" {
+                                let decoded = x.header_one("content-type").and_then(crate::c15::announced_boundary).and_then(|bd| crate::c15::ref_multipart_decode(&x.body, &bd));
+                                match decoded {
+                                    Err(e) => bad = Some(format!("the transmission after the broken one does not decode as multipart: {e}")),
+                                    Ok(d) => {
+                                        let names: Vec<(String, usize)> = d.parts.iter().map(|p| (p.part.name.clone(), p.part.data.len())).collect();
+                                        let want = vec![("t".to_string(), 1), ("u".to_string(), 1), ("f".to_string(), 70000), ("g".to_string(), 8)];
+                                        let (mut g, mut w) = (names.clone(), want.clone());
+                                        g.sort();
+                                        w.sort();
+                                        if g != w {
+                                            bad = Some(format!("the transmission after the broken one decodes to parts {names:?}, the form has {want:?}"));
+                                        }
+                                    }
+                                }
+                            } else if kind != "json-streaming" && x.body.len() != 70000 {
+                                bad = Some(format!("the transmission after the broken one carries {} body bytes of 70000", x.body.len()));
+                            }
+                            if let Some(what) = bad {
+                                ctx.violation(format!("C07:resend:differs:{class}"), format!("{desc}: {what}"), replay, 1000 + n);
+                            }
+                        }
+                        (Err(e), _) | (_, Err(e)) => ctx.violation(format!("C07:resend:not-wellformed:{class}"), format!("{desc}: {e}"), replay, 1000 + n),
+                    }
+                }
+            }
+        }
+    }
+    n
+}
+
 pub fn c07(ctx: &Ctx) -> Report {
     let n_resend = resend_cells(ctx);
     ctx.count("prepared_request_sent_twice_cells", n_resend);
+    let n_after = resend_after_failure_cells(ctx);
+    ctx.count("sent_again_after_a_broken_transmission_cells", n_after);
     // Part A
     let mut cases_a = Vec::new();
     for method in 0..METHODS.len() {
